@@ -508,6 +508,7 @@ static void entropy_gen(Plan *p, uint64_t base_seed, uint64_t variant, int tier)
 			if (!g_ops[p->op].slow || rng_chance(&g, 1, 4)) break;
 		}
 	}
+	if (getenv("GMSIM_GEN_NOTWIN")) return;
 	etwin(p);
 	if (!g_etwin.ok) return;
 	rng_seed(&v, base_seed ^ mix64(variant + 1), 0x40d);
